@@ -113,6 +113,14 @@ def run(ctx):
                       'callers testing with the %s idiom take this for success' % (
                           fn.name, conv, mask_str(extra), node.line, show(node.e), conv), node.file, node.line,
                       config=config)
+        rtb = errdisc.return_type_breaches(prog, convs)
+        for fn_, where, msg in rtb:
+            ck.ob('C12-b', 'R1.return-type', fn_.name, 'signed-result', False, '%s: %s' % (fn_.name, msg), fn_.file,
+                  getattr(where, 'line', fn_.line), config=config)
+        if not rtb:
+            ck.ob('C12-b', 'R1.return-type', '*', 'signed-results', True,
+                  'every function whose results are told apart by sign returns a signed type; no bool function returns '
+                  'a signed verdict', config=config)
         from ..rules import extra
         nd = extra.check_no_downgrade(ck, prog, config, 'C12-d')
         ck.min_instances('callers of write_data', nd, 5)
